@@ -29,6 +29,13 @@ def rates(ec):
             'PTR': ec.PTR.value, 'GTR': ec.GTR.value, 'RITC': ec.RITC.value}
 
 
+RATE_INPUTS = {'Fixed Charge Rate': 'FCR', 'Discount Rate': 'discountrate', 'Inflation Rate During Construction': 'inflrateconstruction',
+               'Fraction of Investment in Bonds': 'FIB', 'Inflated Bond Interest Rate': 'BIR', 'Inflated Equity Interest Rate': 'EIR',
+               'Combined Income Tax Rate': 'CTR', 'Inflation Rate': 'RINFL', 'Property Tax Rate': 'PTR', 'Gross Revenue Tax Rate': 'GTR'}
+RATE_ATTRS = {'FCR': 'FCR', 'discountrate': 'discountrate', 'inflrateconstruction': 'inflrateconstruction', 'FIB': 'FIB', 'BIR': 'BIR',
+              'EIR': 'EIR', 'CTR': 'CTR', 'RINFL': 'RINFL', 'PTR': 'PTR', 'GTR': 'GTR'}
+
+
 def config(s):
     sp, ec = s.surfaceplant, s.economics
     return {'econ': _iv(ec.econmodel), 'enduse': _iv(sp.enduse_option), 'ptype': _iv(sp.plant_type),
@@ -54,6 +61,25 @@ def c01(mon, s):
         mon.note('c01-skip-econ-model:' + str(em))
         return
     p = rates(ec)
+    # the rates of the formula are the ones the input supplies: a rate written as a bare number (the documented unit) must be
+    # the rate standing in the model when the levelized cost is computed, and it is the one the reference uses
+    for pname, key in RATE_INPUTS.items():
+        txt = s.input_values.get(pname)
+        if txt is None or len(str(txt).split()) != 1:
+            continue
+        try:
+            supplied = float(str(txt))
+        except ValueError:
+            continue
+        prm = getattr(ec, RATE_ATTRS[key], None)
+        if prm is None or not (float(prm.Min) <= supplied <= float(prm.Max)):
+            continue
+        relevant = (key == 'FCR' and em == 1) or (key == 'discountrate' and em == 2) or key == 'inflrateconstruction' or \
+            (em == 3 and key not in ('FCR', 'discountrate'))
+        if relevant and key != 'RITC':
+            mon.eq('rate-used-as-supplied', float(p[key]), supplied, rel=1e-12, abs_=0.0,
+                   mechanism='C01/rate-in-the-model-differs-from-the-rate-the-input-supplies:' + pname, supplied=supplied)
+            p[key] = supplied
     CC, CO = float(ec.CCap.value), float(ec.Coam.value)
     r = float(ec.CAPEX_heat_electricity_plant_ratio.value)
     rate = float(sp.electricity_cost_to_buy.value)
